@@ -374,6 +374,30 @@ func runC19(t *testing.T, tape *sim.Tape, tier string) *Outcome {
 				cl.settle(4000)
 				o.stat("failed_start_before_stop", 1)
 			}
+			// a quarter of the Stop scenarios: 17..48 more idle connections (Stop has many connections to close, not a
+			// handful)
+			if tape.Draw(4, "stopcrowd") == 3 {
+				n := 17 + tape.Draw(32, "stopcrowdsize")
+				for i := 0; i < n; i++ {
+					ic := cl.addClient(fmt.Sprintf("idle%d", i), plainAddr, nil)
+					ic.End = endPlan{Mode: -1}
+					ic.NoDial = true
+					ic.dial()
+				}
+				cl.settle(4000 + 40*n)
+				o.stat("stop_with_a_crowd_of_idle_connections", 1)
+				o.stat("idle_connections_at_stop", n)
+			}
+			// half of the Stop scenarios: just before Stop the application looks at the connections and filters the
+			// slice it was given in place (it owns what Conns() returned)
+			if tape.Draw(2, "filterconns") == 1 {
+				if cs := cl.Srv.Conns(); len(cs) > 1 {
+					for i := range cs {
+						cs[i] = cs[0]
+					}
+				}
+				o.stat("stop_after_the_application_rewrote_its_conns_slice", 1)
+			}
 			// listener faults before Stop: an accept loop that has ended on its own (Accept failed: descriptor
 			// exhaustion) and has closed its listener, or a listener whose close reports an error. Whatever Stop
 			// returns then, the connections are released
@@ -482,7 +506,7 @@ func init() {
 	register(&Check{
 		ID: "C19", Bubble: true, Run: runC19,
 		Runs:   map[string]int{"quick": 800, "thorough": 2400},
-		Rule:   "a case (evaluation) is one connection lifetime inside a churn run: plain and TLS ports, optional common-name rule, reference store; each run opens 30 (thorough 1500) connections in batches with up to 1..32 in flight, each ended by a drawn mode {FIN at a request boundary or inside a request (half-close/close), RST at boundary/inside, QUIT (a third of them followed by a client that keeps sending a byte every 400 ms for a simulated minute: the socket must be closed within 30 s all the same), malformed frame, write failure after the client stopped reading, TLS garbage / abort after ClientHello / untrusted certificate / certificate rejected by the rule, TLS session then close or reset, idle then close, closed by the application (a command whose executor closes its own connection)}, interleaved by the seeded scheduler; some stay idle across batches; a third of the runs end with Stop (half of them after a Start that fails because the server is running) while connections are idle, mid-request, mid-handshake, inside a handler call and blocked in a reply write, in half of them also two TLS sessions whose peers were reset unnoticed, three in eight of them after a listener fault (accept loop dead after EMFILE; listener Close error); accounting (socket closed, goroutine gone, registry entry gone; idle baseline at the end) at every drain point; distinct = distinct event-log hashes of runs",
+		Rule:   "a case (evaluation) is one connection lifetime inside a churn run: plain and TLS ports, optional common-name rule, reference store; each run opens 30 (thorough 1500) connections in batches with up to 1..32 in flight, each ended by a drawn mode {FIN at a request boundary or inside a request (half-close/close), RST at boundary/inside, QUIT (a third of them followed by a client that keeps sending a byte every 400 ms for a simulated minute: the socket must be closed within 30 s all the same), malformed frame, write failure after the client stopped reading, TLS garbage / abort after ClientHello / untrusted certificate / certificate rejected by the rule, TLS session then close or reset, idle then close, closed by the application (a command whose executor closes its own connection)}, interleaved by the seeded scheduler; some stay idle across batches; a third of the runs end with Stop (half of them after a Start that fails because the server is running) while connections are idle, mid-request, mid-handshake, inside a handler call and blocked in a reply write, in half of them also two TLS sessions whose peers were reset unnoticed, a quarter of them with 17..48 more idle connections, half of them after the application has rewritten the slice it got from Conns() in place, three in eight of them after a listener fault (accept loop dead after EMFILE; listener Close error); accounting (socket closed, goroutine gone, registry entry gone; idle baseline at the end) at every drain point; distinct = distinct event-log hashes of runs",
 		Real:   []string{"redis.Server accept loops, TLS handshake goroutine, connection loop, ConnManager, Stop", "crypto/tls"},
 		Stub:   []string{"network: simulated (descriptor count = server-side ends not yet closed; real descriptors do not exist in the simulation)", "handler: reference store"},
 		Assume: []string{"the idle baseline is the set of parked server tasks right after Start (one accept loop per enabled port)"},
